@@ -920,7 +920,7 @@ async fn recycle_history(rng: &mut Rng, srv: &resp::Server) -> usize {
     let tmo = deadpool_redis::Timeouts {
         wait: Some(Duration::ZERO),
         create: None,
-        recycle: Some(Duration::from_millis(60)),
+        recycle: Some(Duration::from_millis(400)),
     };
     println!("rp cfg max={max}");
     println!("rpobs cfg ok");
@@ -945,7 +945,7 @@ async fn recycle_history(rng: &mut Rng, srv: &resp::Server) -> usize {
                     57..=66 => "wrong",
                     67..=76 => "error",
                     77..=84 => "unwatcherr",
-                    85..=94 => "drop",
+                    85..=97 => "drop",
                     _ => "silent",
                 };
                 toks.push(t);
